@@ -69,6 +69,20 @@ def check_case(spec, rnd, mo_plain, res):
     variants.append(('split over included files (order preserved, repeated include)', f1, root1, True))
     f2, root2 = malsrc.split_files(blks, rnd, False)
     variants.append(('split over included files (arbitrary distribution)', f2, root2, False))
+    # visitMal de-duplicates with Python's `==`: dictionaries ignore key ORDER, numbers are floats.  Every declaration
+    # block once more at the end, its meta entries (category, assets, steps, associations) in reversed order and its
+    # first float literal spelled with a trailing zero: the compiler (and the model: `dedupBy assetEqv`) merges them
+    import copy, re as _re
+    spec2 = copy.deepcopy(spec)
+    for part in (spec2['categories'], spec2['assets'], spec2['associations']):
+        for x in part:
+            x['meta'] = dict(reversed(list(x['meta'].items())))
+    for a in spec2['assets']:
+        for st in a['attackSteps']:
+            st['meta'] = dict(reversed(list(st['meta'].items())))
+    dup = [_re.sub(r'(\[[^\]\["]*?)(?<![\w.])(\d+\.\d+)(?![\w.])', r'\g<1>\g<2>0', b, count=1) for b in malsrc.blocks(spec2) if not b.startswith('#')]
+    variants.append(('every declaration twice, the copy with its meta entries in reversed order and a number re-spelled (merged by ==)',
+                     {'m.mal': plain + '\n'.join(dup) + '\n'}, 'm.mal', True))
     payloads = []
     for i, (what, files, root, exact) in enumerate(variants):
         try:
